@@ -217,6 +217,11 @@ class DTCWTInverse(nn.Module):
             transform.
         """
         low, highs = coeffs
+        # An empty tensor marks a missing input, just like None
+        highs = [None if (s is not None and s.numel() == 0) else s
+                 for s in highs]
+        if low is not None and low.numel() == 0:
+            low = None
         J = len(highs)
         mode = mode_to_int(self.mode)
         _, _, h_dim, w_dim = get_dimensions6(
